@@ -1521,14 +1521,50 @@ def judge_c20(ctx, r, out):
     prec = m['prec']; cplx = prec in 'cz'; single = prec in 'sc'
     fmt = exp['fmt']
     tag = '%s|%s' % (fmt, exp['desc'].strip('()').lstrip('0123456789P').lstrip('0123456789')[:1] if fmt != 'mt' else 'free')
-    if (res.get('m'), res.get('n'), res.get('nnz')) != (exp['m'], exp['n'], exp['nnz']):
-        out.append(('C20|dimensions|%s' % fmt, 'reader returned %sx%s nnz %s, file encodes %sx%s nnz %s' % (res.get('m'), res.get('n'), res.get('nnz'), exp['m'], exp['n'], exp['nnz'])))
-        return True
+    width = 4 if single else 8
+    per = 2 if cplx else 1
+    signbit = 1 << (width * 8 - 1)
     if exp['sym']:
-        # the file stores one triangle of a symmetric / skew / hermitian matrix: the reader has to expand it
-        full = exp['nnz'] * 2 - sum(1 for j in range(exp['n']) for q in range(exp['colptr'][j], exp['colptr'][j + 1]) if exp['rowind'][q] == j)
+        # the file stores one triangle of a symmetric / skew / hermitian matrix: the reader has to return the full matrix.
+        # expected entries per column: the stored ones plus the mirror image of every stored off-diagonal entry
+        # (negated for Z, conjugated for H); the order inside a column is not part of the statement.
+        want = [dict() for _ in range(exp['n'])]
+        for j in range(exp['n']):
+            for q in range(exp['colptr'][j], exp['colptr'][j + 1]):
+                i = exp['rowind'][q]
+                want[j][i] = (q, (0,) * per)
+                if i != j:
+                    flip = {'S': (0,) * per, 'Z': (1,) * per, 'H': (0, 1)[:per] if per == 2 else (0,)}[exp['sym']]
+                    want[i][j] = (q, flip)
+        full = sum(len(w) for w in want)
+        if (res.get('m'), res.get('n')) != (exp['m'], exp['n']):
+            out.append(('C20|dimensions|%s' % fmt, 'reader returned %sx%s, file encodes %sx%s' % (res.get('m'), res.get('n'), exp['m'], exp['n'])))
+            return True
         if res.get('nnz') != full:
             out.append(('C20|symmetric-not-expanded|%s' % fmt, 'file type %s stores %d entries of a matrix with %d; the reader returned %s' % (exp['sym'], exp['nnz'], full, res.get('nnz'))))
+            return True
+        cp = res.get('colptr') or []; rw = res.get('rowind') or []; hx = res.get('valhex', '')
+        if len(cp) != exp['n'] + 1 or cp[0] != 0 or cp[-1] != full or any(cp[j] > cp[j + 1] for j in range(exp['n'])) or len(rw) != full or len(hx) != full * per * width * 2:
+            out.append(('C20|symmetric-expansion|%s' % fmt, 'expanded arrays are not a column-compressed matrix with %d entries: colptr %s' % (full, str(cp)[:80])))
+            return True
+        for j in range(exp['n']):
+            rows = rw[cp[j]:cp[j + 1]]
+            if sorted(rows) != sorted(want[j]):
+                out.append(('C20|symmetric-expansion|%s' % fmt, 'column %d of the %s-expanded matrix has rows %s, expected %s' % (j, exp['sym'], sorted(rows)[:20], sorted(want[j])[:20])))
+                return True
+            for pos in range(cp[j], cp[j + 1]):
+                q, flip = want[j][rw[pos]]
+                for t in range(per):
+                    raw = bytes.fromhex(hx[(pos * per + t) * width * 2:(pos * per + t + 1) * width * 2])
+                    bits = int.from_bytes(raw, 'little')
+                    acc = {a ^ (signbit if flip[t] else 0) for a in mmio.expected_bits(exp['vals'][q * per + t], single)}
+                    if bits not in acc:
+                        out.append(('C20|symmetric-expansion|%s' % fmt, 'entry (%d,%d) of the %s-expanded matrix (%s of stored entry %d "%s") has bits %x, expected one of %s'
+                                    % (rw[pos], j, exp['sym'], 'mirror image' if rw[pos] < j or flip != (0,) * per else 'copy', q, exp['vals'][q * per + t], bits, ['%x' % a for a in acc])))
+                        return True
+        return True
+    if (res.get('m'), res.get('n'), res.get('nnz')) != (exp['m'], exp['n'], exp['nnz']):
+        out.append(('C20|dimensions|%s' % fmt, 'reader returned %sx%s nnz %s, file encodes %sx%s nnz %s' % (res.get('m'), res.get('n'), res.get('nnz'), exp['m'], exp['n'], exp['nnz'])))
         return True
     if res.get('colptr') != exp['colptr']:
         out.append(('C20|colptr|%s' % fmt, 'column pointers differ: %s vs %s' % (str(res.get('colptr'))[:80], str(exp['colptr'])[:80])))
@@ -1539,8 +1575,6 @@ def judge_c20(ctx, r, out):
         out.append(('C20|rowind|%s' % fmt, 'row indices differ: %s vs %s' % (str(rw)[:80], str(exp['rowind'])[:80])))
         return True
     hx = res.get('valhex', '')
-    width = 4 if single else 8
-    per = 2 if cplx else 1
     nreal = exp['nnz'] * per
     if len(hx) != nreal * width * 2:
         out.append(('C20|value-count|%s' % fmt, 'value array has %d bytes, expected %d' % (len(hx) // 2, nreal * width)))
@@ -1568,4 +1602,4 @@ PROPS['C20'] = dict(timeout_case=15.0, gen=gen_c20, relevant=('C20|',), counters
                     rule='files written by an independent python writer (from the format definitions in the readers` header comments): Harwell-Boeing with optional right-hand-side header and data, Rutherford-Boeing, '
                     'column-triplet; random m x n patterns incl. empty columns, random legal (kIw) and (kEw.d)/(kDw.d)/(kFw.d)/(1PkEw.d) descriptors within 80 columns, D and E exponents, real and complex, '
                     'symmetric/skew/hermitian type codes; fed to ?readhb/?readrb/?readmt on stdin of a child (plain and ASan); distinct = sha1(case); non-trivial = nnz>=2; '
-                    'oracle: dimensions, column pointers and row indices identical, every value bit-identical to the correctly rounded printed decimal (for single precision the value double-rounded through binary64 is accepted too)')
+                    'oracle: dimensions, column pointers and row indices identical, every value bit-identical to the correctly rounded printed decimal (for single precision the value double-rounded through binary64 is accepted too); for S/Z/H type codes the returned matrix must be the full expansion: per column the stored entries plus the mirror images (negated for Z, conjugated for H), values bit-exact, order inside a column free')
